@@ -1,4 +1,4 @@
-"""C19 -- pattern matching and restructuring (clauses R19.1-R19.14)."""
+"""C19 -- pattern matching and restructuring (clauses R19.1-R19.15)."""
 from __future__ import annotations
 
 import ast
@@ -449,6 +449,14 @@ def _paren_preserving_rule(ctx, res) -> None:
         if isinstance(v, ast.Call) and call_name(v) != "_get_node_text" and is_self_attr(v.func) and f.cls is not None:
             h = idx.find_method(f.cls.qualname, v.func.attr)
             ok = h is not None and restores_parens(h)
+        if ok:
+            # the parentheses may stand on other lines than the expression (`(\n    a + b\n) * c`): the text looked at before the
+            # node reaches back to the start of the source and the text after it on to its end -- blanks AND line breaks are skipped
+            for j, sub in enumerate([x for x in walk_local(h.node) if isinstance(x, ast.Subscript) and isinstance(x.slice, ast.Slice) and is_self_attr(x.value)], 1):
+                if sub.slice.lower is not None and sub.slice.upper is not None:
+                    res.fail("R19.8", f"{h.name}|parentheses-are-looked-for-across-lines#{k}.{j}", f"{h.unit.rel}:{sub.lineno}",
+                             f"`{ast.unparse(sub)[:70]}` bounds the search for the enclosing parenthesis (to the node's own line): in `return (\\n    a + b\\n) * c` the `(` stands on the "
+                             "line above and the `)` on the line below, they are not seen, and `${x} * ${y}` -> `${y} * ${x}` gives `c * a + b`", function=h.qualname)
         res.add("R19.8", f"_get_matched_text|bound-text#{k}", ok, f"{f.unit.rel}:{st.lineno}",
                 "the bound text passes through a parenthesis-restoring step before substitution" if ok else
                 "the text bound to a wildcard is substituted into the goal as the bare node region: `(a + b) * c` restructured with `${x} * ${y}` -> "
